@@ -16,7 +16,8 @@ import (
 
 // firstInstance: the function itself when it is not generic, otherwise its smallest ground instance.
 func (c *Ctx) firstInstance(pkg, name string) *ssa.Function {
-	var best *ssa.Function
+	var best, generic *ssa.Function
+	defer func() {}()
 	for f := range c.AllFns {
 		o := origin(f)
 		if fnPkgPath(o) != pkg || len(f.Blocks) == 0 {
@@ -30,6 +31,7 @@ func (c *Ctx) firstInstance(pkg, name string) *ssa.Function {
 			continue
 		}
 		if f == o && o.TypeParams().Len() > 0 {
+			generic = f // the generic body: used only when the program instantiates it nowhere
 			continue
 		}
 		if f != o && !isGroundInstance(f) {
@@ -38,6 +40,9 @@ func (c *Ctx) firstInstance(pkg, name string) *ssa.Function {
 		if best == nil || f.String() < best.String() {
 			best = f
 		}
+	}
+	if best == nil {
+		return generic
 	}
 	return best
 }
@@ -598,6 +603,19 @@ func ruleLockListDetails(c *Ctx, rule string) {
 				n++
 				bo, isBo := ret.Results[0].(*ssa.BinOp)
 				if !isBo || bo.Op != token.EQL {
+					ok = false
+					continue
+				}
+				// one side is the literal's own parameter, the other the value RemoveValue was given
+				fromParam := func(v ssa.Value) bool {
+					for _, r := range roots(v, nil) {
+						if p, isP := r.(*ssa.Parameter); isP && p.Parent() == lit {
+							return true
+						}
+					}
+					return false
+				}
+				if fromParam(bo.X) == fromParam(bo.Y) {
 					ok = false
 				}
 			}
